@@ -48,12 +48,14 @@ fn focus_cuts(len: usize) -> Vec<usize> {
 }
 
 fn check_decode(s: &mut Stats, bytes: &[u8], want: &Result<FrameParts, Vec<WebsocketError>>, label: &str, depth: Depth) {
-    let _call = crate::report::enter(bytes);
     let focus = focus_cuts(bytes.len());
     let pl = if bytes.len() <= 24 { plans(bytes.len(), depth, None) } else { plans(bytes.len(), depth, Some(&focus)) };
     for cuts in pl {
         s.evaluations += 1;
         s.transitions += 1;
+        // one decode = one call (a guard around the whole plan loop tripped the watchdog on 1 MiB frames with
+        // pairs of cuts in the thorough tier: a false alarm of the first version)
+        let _call = crate::report::enter(bytes);
         let got = std::panic::catch_unwind(|| {
             let mut r = CutReader::new(bytes, &cuts);
             decode(&mut r)
